@@ -716,13 +716,14 @@ theorem step_events_gated (E : Enc C) (m : Manager C) (s : Srv) (x : Msg) :
       · simp only [List.mem_singleton] at he
         subst he
         simp [EvGated, Manager.list, Manager.ping]
-  | newWorkConn rid =>
+  | newWorkConn rid cred authOk =>
     simp only [step] at he
     split at he
     · cases he
     · simp only [List.mem_singleton] at he
       subst he
-      simp [EvGated, Manager.list, Manager.newWorkConn]
+      simp only [EvGated, Manager.list, Manager.newWorkConn, Bool.and_eq_true, true_and]
+      exact fun h => h.1
   | newUserConn name =>
     simp only [step] at he
     split at he
@@ -909,7 +910,7 @@ theorem effect_only_through_gate (E : Enc C) (m : Manager C) (s : Srv) (x : Msg)
       · rename_i hc
         simp [hc]
       · exact absurd rfl h
-  | newWorkConn rid => simp only [step] at h; split at h <;> exact absurd rfl h
+  | newWorkConn rid cred authOk => simp only [step] at h; split at h <;> exact absurd rfl h
   | newUserConn name => simp only [step] at h; split at h <;> exact absurd rfl h
   | connClosed slot => exact Or.inl ⟨slot, rfl⟩
   | tick d => exact Or.inr (Or.inl ⟨d, rfl⟩)
@@ -962,7 +963,7 @@ theorem step_sessions_let_in (E : Enc C) (m : Manager C) (s : Srv) (x : Msg) (T 
         obtain ⟨o, ho, _, _, hu, _⟩ := mem_beat s slot ctl hc
         rw [← hu]; exact keep o ho _
       · intro ctl hc; exact keep ctl hc _
-  | newWorkConn rid => simp only [step]; split <;> intro ctl hc <;> exact keep ctl hc _
+  | newWorkConn rid cred authOk => simp only [step]; split <;> intro ctl hc <;> exact keep ctl hc _
   | newUserConn name => simp only [step]; split <;> intro ctl hc <;> exact keep ctl hc _
   | connClosed slot =>
     simp only [step]
@@ -1048,13 +1049,13 @@ theorem offered_carries_session_user (E : Enc C) (m : Manager C) (s : Srv) (x : 
     · rename_i ctl hs
       split at he <;> simp only [List.mem_singleton] at he <;> subst he <;>
         exact ⟨ctl, List.mem_of_find?_eq_some hs, key, rfl⟩
-  | newWorkConn rid =>
+  | newWorkConn rid cred authOk =>
     simp only [step] at he
     split at he
     · cases he
     · rename_i ctl hs
       simp only [List.mem_singleton] at he; subst he
-      exact ⟨ctl, List.mem_of_find?_eq_some hs, rid, rfl⟩
+      exact ⟨ctl, List.mem_of_find?_eq_some hs, cred, rfl⟩
   | newUserConn name =>
     simp only [step] at he
     split at he
@@ -1117,7 +1118,7 @@ theorem step_proxies_registered (E : Enc C) (m : Manager C) (s : Srv) (x : Msg) 
         obtain ⟨o, ho, _, _, _, hp, _⟩ := mem_beat s slot ctl hc
         rw [← hp] at hn; exact keep o ho n hn _
       · intro ctl hc n hn; exact keep ctl hc n hn _
-  | newWorkConn rid => simp only [step]; split <;> intro ctl hc n hn <;> exact keep ctl hc n hn _
+  | newWorkConn rid cred authOk => simp only [step]; split <;> intro ctl hc n hn <;> exact keep ctl hc n hn _
   | newUserConn name => simp only [step]; split <;> intro ctl hc n hn <;> exact keep ctl hc n hn _
   | connClosed slot =>
     simp only [step]
@@ -1246,7 +1247,7 @@ theorem step_clock (E : Enc C) (m : Manager C) (s : Srv) (x : Msg) :
           simp only [hcnd, if_true, List.mem_singleton]
           exact ⟨_, rfl, rfl, Or.inr ⟨rfl, key, by rw [h5]⟩⟩
       · exact Or.inl (clockFrom_self s c' hc)
-  | newWorkConn rid =>
+  | newWorkConn rid cred authOk =>
     left; simp only [step] at hc; split at hc <;> exact clockFrom_self s c' hc
   | newUserConn name =>
     left; simp only [step] at hc; split at hc <;> exact clockFrom_self s c' hc
@@ -1310,7 +1311,7 @@ theorem step_hb_now (E : Enc C) (m : Manager C) (s : Srv) (x : Msg) :
     simp only [step]; split
     · simp
     · split <;> simp [Srv.beat]
-  | newWorkConn rid => simp only [step]; split <;> simp
+  | newWorkConn rid cred authOk => simp only [step]; split <;> simp
   | newUserConn name => simp only [step]; split <;> simp
   | connClosed slot => simp [step]
   | tick d => simp [step]
@@ -1519,6 +1520,300 @@ theorem code_ping_store_gated :
     Gen.PluginSiteFacts.hbPeriod = "time.Second" := by
   decide +kernel
 
+/-! ### Order at the call sites that also check credentials: the chain first, the check on what it returned
+
+  handlePing and RegisterWorkConn (and the Login case of handleConnection) call the plugin chain FIRST and hand the
+  message the chain RETURNED to the credential check.  `stepReq` closes `step`'s `authOk` for Ping and NewWorkConn with
+  the verifier as a function of the rewritten credentials. -/
+
+/-- a request of a peer is a `step` with the verdict the verifier gives on the chain's output: everything proved for
+    `step` holds for it -/
+theorem stepReq_is_step (E : Enc C) (A : Auth) (m : Manager C) (s : Srv) (r : Req) :
+    ∃ x, stepReq E A m s r = step E m s x := by
+  cases r with
+  | ping slot cred => exact ⟨.ping slot cred (pingVerdict E A m s slot cred), rfl⟩
+  | newWorkConn rid cred => exact ⟨.newWorkConn rid cred (workVerdict E A m s rid cred), rfl⟩
+
+theorem stepReq_events_gated (E : Enc C) (A : Auth) (m : Manager C) (s : Srv) (r : Req) :
+    ∀ e ∈ (stepReq E A m s r).2, e.chain = m.list e.op ∧ EvGated e := by
+  obtain ⟨x, hx⟩ := stepReq_is_step E A m s r
+  rw [hx]; exact step_events_gated E m s x
+
+/-- **Ping**: whatever credentials the Ping carried, the chain is consulted on the content built from them, and the
+    heartbeat is counted (Pong without error) iff the chain consented AND the verifier accepts the credentials of the
+    content the chain RETURNED.  A plugin that turns a ticket into valid credentials makes the Ping count; one that
+    spoils valid credentials makes it fail. -/
+theorem ping_acts_on_rewritten (E : Enc C) (A : Auth) (m : Manager C) (s : Srv) (slot : Nat) (cred : Str)
+    (ctl : Ctl) (hc : s.bySlot slot = some ctl) :
+    ∃ e, (stepReq E A m s (.ping slot cred)).2 = [e] ∧ e.op = .ping ∧ e.chain = m.pingPlugins ∧
+      e.offered = E.ping cred ctl.user ∧
+      e.cons = (gated .ping m.pingPlugins (E.ping cred ctl.user)).2 ∧
+      (e.proceeded = true ↔ ∃ c', (gated .ping m.pingPlugins (E.ping cred ctl.user)).1 = .ok c' ∧
+        Auth.accepts A.ping (E.pingCred c') = true) ∧
+      (stepReq E A m s (.ping slot cred)).1 = (if e.proceeded then s.beat slot else s) := by
+  simp only [stepReq, step, hc, pingVerdict, Manager.ping]
+  cases hr : (gated .ping m.pingPlugins (E.ping cred ctl.user)).1 with
+  | ok c' =>
+    by_cases hv : Auth.accepts A.ping (E.pingCred c') = true
+    · simp [hv, Result.isOk]
+    · have hv' : Auth.accepts A.ping (E.pingCred c') = false := by simpa using hv
+      simp [hv', Result.isOk]
+  | error msg => simp [Result.isOk]
+  | panic => simp [Result.isOk]
+
+/-- **NewWorkConn**: the same at RegisterWorkConn — the work connection is handed to the session iff the chain
+    consented and the verifier accepts the credentials as the chain returned them; the chain is consulted whatever
+    the credentials of the original message are worth -/
+theorem workconn_acts_on_rewritten (E : Enc C) (A : Auth) (m : Manager C) (s : Srv) (rid cred : Str)
+    (ctl : Ctl) (hc : s.byRid rid = some ctl) :
+    ∃ e, (stepReq E A m s (.newWorkConn rid cred)).2 = [e] ∧ e.op = .newWorkConn ∧
+      e.chain = m.newWorkConnPlugins ∧ e.offered = E.newWorkConn cred ctl.user ∧
+      e.cons = (gated .newWorkConn m.newWorkConnPlugins (E.newWorkConn cred ctl.user)).2 ∧
+      (e.proceeded = true ↔ ∃ c', (gated .newWorkConn m.newWorkConnPlugins (E.newWorkConn cred ctl.user)).1 = .ok c' ∧
+        Auth.accepts A.work (E.workCred c') = true) ∧
+      (stepReq E A m s (.newWorkConn rid cred)).1 = s := by
+  simp only [stepReq, step, hc, workVerdict, Manager.newWorkConn]
+  cases hr : (gated .newWorkConn m.newWorkConnPlugins (E.newWorkConn cred ctl.user)).1 with
+  | ok c' =>
+    by_cases hv : Auth.accepts A.work (E.workCred c') = true
+    · simp [hv, Result.isOk]
+    · have hv' : Auth.accepts A.work (E.workCred c') = false := by simpa using hv
+      simp [hv', Result.isOk]
+  | error msg => simp [Result.isOk]
+  | panic => simp [Result.isOk]
+
+/-- … hence two requests whose chains return the same content fare alike, however different the credentials they
+    arrived with: the ORIGINAL credentials decide nothing -/
+theorem original_credentials_decide_nothing (E : Enc C) (A : Auth) (m : Manager C) (s : Srv) (rid k1 k2 : Str)
+    (ctl : Ctl) (hc : s.byRid rid = some ctl)
+    (hsame : (gated .newWorkConn m.newWorkConnPlugins (E.newWorkConn k1 ctl.user)).1 =
+             (gated .newWorkConn m.newWorkConnPlugins (E.newWorkConn k2 ctl.user)).1) :
+    ((stepReq E A m s (.newWorkConn rid k1)).2.map (·.proceeded)) =
+    ((stepReq E A m s (.newWorkConn rid k2)).2.map (·.proceeded)) := by
+  simp only [stepReq, step, hc, workVerdict, Manager.newWorkConn, hsame, List.map_cons, List.map_nil]
+
+/-- **the statement order in the source** (regenerated on every run): RegisterWorkConn = chain, then — only if it
+    consented — `newMsg = &retContent.NewWorkConn` and `VerifyNewWorkConn(newMsg)` on THAT variable, then the refusal
+    branch, then `ctl.RegisterWorkConn`; handlePing alike (`inMsg = &retContent.Ping`, `VerifyPing(inMsg)`); the Login
+    case of handleConnection = chain, then `m = &retContent.Login; RegisterControl(conn, m, …)`, and RegisterControl
+    verifies its parameter before it creates / stores / starts the Control; handleUserTCPConnection itself calls the
+    NewUserConn chain, returns on refusal, and only then asks for a work connection; every user connection is handed
+    to a goroutine of its own; no gated chain is called from a function literal or from any other function -/
+theorem code_chain_then_verify :
+    Gen.PluginSiteFacts.registerWorkConn.filter (· ≠ "other") = ["chain", "verify", "refuse", "effect"] ∧
+    Gen.PluginSiteFacts.handlePing.filter (· ≠ "other") = ["chain", "verify", "refuse", "store", "pong"] ∧
+    Gen.PluginSiteFacts.loginCase.filter (· ≠ "other") = ["chain", "verify"] ∧
+    Gen.PluginSiteFacts.registerControl.filter (· ≠ "other") = ["verify", "create", "add", "start"] ∧
+    (Gen.PluginSiteFacts.userConn.filter (· ≠ "other")).take 3 = ["chain", "refuse", "workconn"] ∧
+    Gen.PluginSiteFacts.userConn.all (fun k => k ≠ "stray-chain" && k ≠ "stray-in-refuse") = true ∧
+    Gen.PluginSiteFacts.userConnSpawn = "startCommonTCPListenersHandler: go pxy.handleUserTCPConnection(c);" ∧
+    Gen.PluginSiteFacts.gateCallers =
+      ["control.go:CloseProxy:CloseProxy:lit", "control.go:handleNewProxy:NewProxy", "control.go:handlePing:Ping",
+       "control.go:handlePing:VerifyPing", "control.go:worker:CloseProxy:lit",
+       "proxy/proxy.go:handleUserTCPConnection:NewUserConn", "service.go:RegisterControl:VerifyLogin",
+       "service.go:RegisterWorkConn:NewWorkConn", "service.go:RegisterWorkConn:VerifyNewWorkConn",
+       "service.go:handleConnection:Login", "service.go:handleConnection:RegisterControl"] := by
+  decide +kernel
+
+/-! ### Occurrences in flight at the same time: the gate is per occurrence
+
+  Several user connections to one proxy, several work connections, Pings and NewProxys of several sessions may be
+  inside their plugin chains at once, the plugins answering in any order and taking any time.  `Pool.run` lets the
+  plugins answer in the order of a schedule. -/
+
+theorem flight_advance_done (f : Flight C) (r : Result C) (h : f.res = some r) : f.advance = f := by
+  simp [Flight.advance, h]
+
+theorem flight_advanceN_done (n : Nat) (f : Flight C) (r : Result C) (h : f.res = some r) :
+    Flight.advanceN n f = f := by
+  induction n with
+  | zero => rfl
+  | succ n ih => simp only [Flight.advanceN, flight_advance_done f r h, ih]
+
+/-- a `Handle` call is made exactly when the goroutine asks one -/
+theorem flight_advance_cons (f : Flight C) : f.advance.cons = f.cons ++ f.asks.toList := by
+  unfold Flight.advance Flight.asks
+  cases hres : f.res with
+  | some r => simp
+  | none =>
+    cases hrest : f.rest with
+    | nil => simp
+    | cons p ps =>
+      simp only
+      cases hh : p.handle f.op f.cur with
+      | err => simp
+      | resp reject reason unchange content =>
+        by_cases hr : reject = true
+        · simp [hr]
+        · by_cases hu : unchange = true
+          · simp [hr, hu]
+          · cases content <;> simp [hr, hu]
+
+/-- **one occurrence, let run**: after at most (chain length + 1) answers the goroutine has returned, with the result
+    and the `Handle` calls of the manager loop on ITS chain and ITS content -/
+theorem flight_runs_gated (f : Flight C) (h : f.res = none) (n : Nat) (hn : f.rest.length + 1 ≤ n) :
+    (Flight.advanceN n f).res = some (gated f.op f.rest f.cur).1 ∧
+    (Flight.advanceN n f).cons = f.cons ++ (gated f.op f.rest f.cur).2 := by
+  induction n generalizing f with
+  | zero => omega
+  | succ n ih =>
+    simp only [Flight.advanceN]
+    cases hrest : f.rest with
+    | nil =>
+      have hadv : f.advance = { f with res := some (.ok f.cur) } := by
+        simp [Flight.advance, h, hrest]
+      rw [hadv, flight_advanceN_done n _ (.ok f.cur) rfl]
+      simp [gated]
+    | cons p ps =>
+      rw [hrest] at hn
+      simp only [List.length_cons] at hn
+      cases hh : p.handle f.op f.cur with
+      | err =>
+        have hadv : f.advance = { f with rest := [], res := some (.error (errMsg f.op)), cons := f.cons ++ [(p.id, f.cur)] } := by
+          simp [Flight.advance, h, hrest, hh]
+        rw [hadv, flight_advanceN_done n _ _ rfl]
+        simp [gated, hh]
+      | resp reject reason unchange content =>
+        by_cases hr : reject = true
+        · have hadv : f.advance = { f with rest := [], res := some (.error reason), cons := f.cons ++ [(p.id, f.cur)] } := by
+            simp [Flight.advance, h, hrest, hh, hr]
+          rw [hadv, flight_advanceN_done n _ _ rfl]
+          simp [gated, hh, hr]
+        · by_cases hu : unchange = true
+          · have hadv : f.advance = { f with rest := ps, cons := f.cons ++ [(p.id, f.cur)] } := by
+              simp [Flight.advance, h, hrest, hh, hr, hu]
+            rw [hadv]
+            have := ih { f with rest := ps, cons := f.cons ++ [(p.id, f.cur)] } h (by simp only; omega)
+            simp only at this
+            simp [gated, hh, hr, hu, this]
+          · cases content with
+            | none =>
+              have hadv : f.advance = { f with rest := [], res := some .panic, cons := f.cons ++ [(p.id, f.cur)] } := by
+                simp [Flight.advance, h, hrest, hh, hr, hu]
+              rw [hadv, flight_advanceN_done n _ _ rfl]
+              simp [gated, hh, hr, hu]
+            | some c' =>
+              have hadv : f.advance = { f with rest := ps, cur := c', cons := f.cons ++ [(p.id, f.cur)] } := by
+                simp [Flight.advance, h, hrest, hh, hr, hu]
+              rw [hadv]
+              have := ih { f with rest := ps, cur := c', cons := f.cons ++ [(p.id, f.cur)] } h (by simp only; omega)
+              simp only at this
+              simp [gated, hh, hr, hu, this]
+
+theorem modAt_getElem? {α : Type} (f : α → α) (j : Nat) (l : List α) (i : Nat) :
+    (modAt f j l)[i]? = if i = j then (l[i]?).map f else l[i]? := by
+  induction l generalizing i j with
+  | nil => simp [modAt]
+  | cons x xs ih =>
+    cases j with
+    | zero =>
+      cases i with
+      | zero => simp [modAt]
+      | succ i => simp [modAt]
+    | succ j =>
+      cases i with
+      | zero => simp [modAt]
+      | succ i => simp [modAt, ih]
+
+theorem flight_advanceN_succ (n : Nat) (f : Flight C) :
+    Flight.advanceN (n + 1) f = Flight.advanceN n f.advance := rfl
+
+/-- **what else is in flight does not matter**: under every schedule, occurrence `i` is where it would be had only
+    its own plugins answered — as many times as the schedule names it -/
+theorem pool_occurrence_independent (P : Pool C) (sched : List Nat) (i : Nat) :
+    (P.run sched)[i]? = (P[i]?).map (Flight.advanceN (sched.count i)) := by
+  induction sched generalizing P with
+  | nil => cases h : P[i]? <;> simp [Pool.run, h, Flight.advanceN]
+  | cons j sched ih =>
+    simp only [Pool.run]
+    rw [ih, modAt_getElem?]
+    by_cases hij : i = j
+    · subst hij
+      simp only [if_true, List.count_cons_self]
+      cases h : P[i]? with
+      | none => rfl
+      | some f => simp [flight_advanceN_succ]
+    · have : (j == i) = false := by simp; exact fun h => hij h.symm
+      simp only [hij, if_false, List.count_cons, this]
+      simp
+
+/-- **every occurrence gets ITS verdict**: occurrences `visits` (each with the chain as it answers that occurrence
+    and with its own content) are in flight together; under every schedule that lets every goroutine finish, each one
+    returns what the manager loop returns on its own chain and content, having made exactly those `Handle` calls -/
+theorem concurrent_occurrences_gated (op : Op) (visits : List (List (Plugin C) × C)) (sched : List Nat)
+    (hfin : ∀ i (h : i < visits.length), (visits[i]).1.length + 1 ≤ sched.count i) :
+    ∀ i (h : i < visits.length),
+      ∃ f : Flight C, (Pool.run (visits.map (fun v => Flight.start op v.1 v.2)) sched)[i]? = some f ∧
+        f.res = some (gated op (visits[i]).1 (visits[i]).2).1 ∧
+        f.cons = (gated op (visits[i]).1 (visits[i]).2).2 := by
+  intro i h
+  rw [pool_occurrence_independent]
+  simp only [List.getElem?_map, List.getElem?_eq_getElem h, Option.map_some]
+  refine ⟨_, rfl, ?_⟩
+  have := flight_runs_gated (Flight.start op (visits[i]).1 (visits[i]).2) rfl (sched.count i) (hfin i h)
+  simpa [Flight.start] using this
+
+/-- **every occurrence appears in the plugins' request log with its own content**: the requests the plugins' side
+    sees under a schedule, restricted to occurrence `i`, are exactly the `Handle` calls occurrence `i` made -/
+theorem log_per_occurrence (P : Pool C) (sched : List Nat) (i : Nat) (f : Flight C) (hf : P[i]? = some f) :
+    ∃ f', (P.run sched)[i]? = some f' ∧
+      f'.cons = f.cons ++ ((P.log sched).filter (fun e => e.1 == i)).map (·.2) := by
+  induction sched generalizing P f with
+  | nil => exact ⟨f, by simp [Pool.run, hf], by simp [Pool.log]⟩
+  | cons j sched ih =>
+    simp only [Pool.run, Pool.log]
+    by_cases hij : j = i
+    · subst hij
+      have hm : (modAt Flight.advance j P)[j]? = some f.advance := by simp [modAt_getElem?, hf]
+      obtain ⟨f', h1, h2⟩ := ih (modAt Flight.advance j P) f.advance hm
+      refine ⟨f', h1, ?_⟩
+      rw [h2, flight_advance_cons, hf]
+      cases ha : f.asks <;> simp [ha]
+    · have hm : (modAt Flight.advance j P)[i]? = some f := by
+        rw [modAt_getElem?, if_neg (fun h => hij h.symm)]; exact hf
+      obtain ⟨f', h1, h2⟩ := ih (modAt Flight.advance j P) f hm
+      refine ⟨f', h1, ?_⟩
+      rw [h2]
+      have hne : (j == i) = false := by simp [hij]
+      cases ha : (P[j]?).bind Flight.asks <;> simp [hne]
+
+/-- … so with every goroutine finished, the log restricted to an occurrence is the property's list for it -/
+theorem log_is_each_occurrences_chain (op : Op) (visits : List (List (Plugin C) × C)) (sched : List Nat)
+    (hfin : ∀ i (h : i < visits.length), (visits[i]).1.length + 1 ≤ sched.count i)
+    (i : Nat) (h : i < visits.length) :
+    ((Pool.log (visits.map (fun v => Flight.start op v.1 v.2)) sched).filter (fun e => e.1 == i)).map (·.2) =
+      (consultedSpec op (visits[i]).1 (visits[i]).2) := by
+  obtain ⟨f, hf, _, hcons⟩ := concurrent_occurrences_gated op visits sched hfin i h
+  obtain ⟨f', hf', hlog⟩ := log_per_occurrence (visits.map (fun v => Flight.start op v.1 v.2)) sched i
+    (Flight.start op (visits[i]).1 (visits[i]).2) (by simp [List.getElem?_eq_getElem h])
+  rw [hf] at hf'
+  cases hf'
+  rw [hcons] at hlog
+  have hnil : (Flight.start op (visits[i]).1 (visits[i]).2).cons = [] := rfl
+  rw [hnil, List.nil_append] at hlog
+  rw [← hlog, gated_consulted]
+
+/-- at the call sites: user and work connections leave the server state alone, so any number of them, interleaved in
+    any order with plugin managers of their own, each see what they would see alone -/
+def IsConnMsg : Msg → Prop
+  | .newUserConn _ => True
+  | .newWorkConn _ _ _ => True
+  | _ => False
+
+theorem conn_visits_independent (E : Enc C) (hist : List (Manager C × Msg)) (s : Srv)
+    (h : ∀ mx ∈ hist, IsConnMsg mx.2) :
+    (run E s hist).1 = s ∧ (run E s hist).2 = hist.flatMap (fun mx => (step E mx.1 s mx.2).2) := by
+  induction hist with
+  | nil => simp [run]
+  | cons mx rest ih =>
+    obtain ⟨m, x⟩ := mx
+    have hx := h (m, x) (List.mem_cons_self ..)
+    have hs : (step E m s x).1 = s := by
+      cases x <;> simp only [IsConnMsg] at hx <;> simp only [step] <;> split <;> rfl
+    have := ih (fun mx hmx => h mx (List.mem_cons_of_mem _ hmx))
+    simp only [run, hs, this, List.flatMap_cons]
+    exact ⟨trivial, trivial⟩
+
 end site
 
 /-! ## Non-vacuity -/
@@ -1683,6 +1978,47 @@ example : pingHoldsOn id mPingRej1.pingPlugins (encContent.ping [2] [117]) true 
   decide +kernel
 example : expiryHoldsOn 20 10 3 40 true = false ∧ expiryHoldsOn 20 10 3 33 true = true ∧
     expiryHoldsOn 20 10 3 40 false = true := by decide
+
+/-! ### the credential check reads what the chain returned; occurrences in flight -/
+
+/-- a translator: the ticket `t` becomes the key `K` the verifier accepts, anything else is turned away -/
+def mXlat : Manager Content := mgr [Beh.toPlugin (.hxlat [116] [75]) 1 [Op.newWorkConn.name, Op.ping.name]]
+/-- a plugin that spoils whatever credentials it is handed -/
+def mSpoil : Manager Content := mgr [Beh.toPlugin (.happ [88]) 1 [Op.newWorkConn.name, Op.ping.name]]
+def aKey : Auth := { ping := some [[75]], work := some [[75]] }
+def sOne : Srv := { ctls := [⟨0, [9], [117], [], 0⟩], now := 4, hb := 20 }
+
+-- the ticket is not a valid key, the server accepts the work connection because the plugin made it one
+example : (stepReq encContent aKey mXlat sOne (.newWorkConn [9] [116])).2.map (fun e => (e.cons, e.proceeded)) =
+    [([(1, ⟨[116], [117]⟩)], true)] := by decide +kernel
+-- without the plugin the same ticket is refused; a valid key spoiled by the plugin is refused, though valid when it came
+example : (stepReq encContent aKey Manager.empty sOne (.newWorkConn [9] [116])).2.map (·.proceeded) = [false] := by
+  decide +kernel
+example : (stepReq encContent aKey mSpoil sOne (.newWorkConn [9] [75])).2.map (fun e => (e.cons, e.proceeded)) =
+    [([(1, ⟨[75], [117]⟩)], false)] := by decide +kernel
+-- the translator turns a valid key away: the plugin is consulted about it all the same
+example : (stepReq encContent aKey mXlat sOne (.newWorkConn [9] [75])).2.map (fun e => (e.cons, e.proceeded)) =
+    [([(1, ⟨[75], [117]⟩)], false)] := by decide +kernel
+-- Ping: the heartbeat is counted on the translated ticket, not on the spoiled key
+example : viewS (stepReq encContent aKey mXlat sOne (.ping 0 [116])) = [⟨0, [9], [117], [], 4⟩] ∧
+    viewS (stepReq encContent aKey mSpoil sOne (.ping 0 [75])) = [⟨0, [9], [117], [], 0⟩] := by decide +kernel
+-- no scope configured: the verifier lets everything pass, the plugins still decide
+example : (stepReq encContent {} mSpoil sOne (.newWorkConn [9] [1])).2.map (·.proceeded) = [true] := by decide +kernel
+
+/-- three user connections in flight: the first two meet a consenting plugin, the third one that refuses -/
+def pool3 : Pool Content :=
+  [Flight.start .newUserConn [pApp 1 5, pApp 2 6] ⟨[1], []⟩,
+   Flight.start .newUserConn [pApp 1 5, pRejIf7 2] ⟨[7], []⟩,
+   Flight.start .newUserConn [pRejIf7 1, pApp 2 6] ⟨[2, 7], []⟩]
+
+example : ((pool3.run [2, 0, 1, 1, 0, 2, 0, 1]).map (fun f => (f.res, f.cons.map (·.1)))) =
+    [(some (.ok ⟨[1, 5, 6], []⟩), [1, 2]), (some (.ok ⟨[7, 5], []⟩), [1, 2]), (some (.error [1, 2]), [1])] := by
+  decide +kernel
+-- the plugins' side: who was asked about which occurrence, in the order of the schedule
+example : (pool3.log [2, 0, 1, 1, 0, 2, 0, 1]).map (fun e => (e.1, e.2.1)) =
+    [(2, 1), (0, 1), (1, 1), (1, 2), (0, 2)] := by decide +kernel
+-- a schedule that has not let everybody finish: the others are none the worse for it
+example : ((pool3.run [1, 1, 1]).map (fun f => f.res.isSome)) = [false, true, false] := by decide +kernel
 
 end siteExamples
 
